@@ -1646,6 +1646,7 @@ impl Tree {
 		let _write_guard = self.core.commit_pipeline.lock_writes();
 
 		// Step 1: Restore files from checkpoint
+		let index_source = checkpoint_dir.as_ref().join("versioned_index").join("index.bpt");
 		let checkpoint = DatabaseCheckpoint::new(Arc::clone(&self.core.inner));
 		let metadata = checkpoint.restore_from_checkpoint(checkpoint_dir)?;
 
@@ -1666,6 +1667,21 @@ impl Tree {
 		// The value log still writes to, and reads from, the files of the discarded timeline
 		if let Some(ref vlog) = self.core.inner.vlog {
 			vlog.reset_after_restore()?;
+		}
+
+		// The version index is part of the checkpoint: replace it (an old checkpoint without
+		// one leaves an empty index rather than the discarded timeline's)
+		if let Some(ref versioned_index) = self.core.inner.versioned_index {
+			let mut guard = versioned_index.write();
+			let path = self.core.inner.opts.versioned_index_dir().join("index.bpt");
+			create_dir_all(self.core.inner.opts.versioned_index_dir())?;
+			let _ = std::fs::remove_file(&path);
+			if index_source.exists() {
+				std::fs::copy(&index_source, &path)?;
+			}
+			let comparator =
+				Arc::new(TimestampComparator::new(Arc::new(BytewiseComparator::default())));
+			*guard = DiskBPlusTree::disk(&path, comparator)?;
 		}
 
 		// Clear the current memtables since they would be stale after restore
